@@ -272,18 +272,24 @@ impl<T> JoinHandle<T> {
             thread::switch();
         }
 
-        let should_block = ExecutionState::with(|state| {
-            let me = state.current().id();
-            let target = state.get_mut(self.task_id);
-            if target.set_waiter(me) {
-                state.current_mut().block(false);
-                true
-            } else {
-                false
-            }
-        });
+        // Block until the target has finished. The check is repeated after every wake-up: the joiner can be
+        // unblocked by something other than the target's exit (e.g. a semaphore granting permits to an
+        // `Acquire` this task polled earlier and still owns).
+        loop {
+            let should_block = ExecutionState::with(|state| {
+                let me = state.current().id();
+                let target = state.get_mut(self.task_id);
+                if target.set_waiter(me) {
+                    state.current_mut().block(false);
+                    true
+                } else {
+                    false
+                }
+            });
 
-        if should_block {
+            if !should_block {
+                break;
+            }
             thread::switch();
         }
 
